@@ -211,6 +211,9 @@ where
     if case.corrupt.kind == "aux" {
         prover.aux_corrupt = Some((case.corrupt.col, case.corrupt.row));
     }
+    if case.corrupt.kind == "auxscale" {
+        prover.aux_scale = Some(case.corrupt.col);
+    }
     let proof = match catch(|| run_prover(&prover, trace)) {
         Err(p) => return json!({"verdict": "prover_panic", "detail": p}),
         Ok(Err(e)) => return json!({"verdict": "prover_error", "detail": format!("{e:?}")}),
